@@ -202,6 +202,9 @@ func GenDaemon(prop string, seed uint64, tier string) *DaemonScenario {
 		if r.Bool(25) {
 			fp.Liars = append(fp.Liars, infoLies[r.Intn(len(infoLies))])
 		}
+		if r.Bool(40) {
+			fp.KeyScheme = SchemeNames[r.Intn(len(SchemeNames))]
+		}
 		fp.Order = r.Perm(len(fp.Peers) + len(fp.Liars))
 		if n := len(fp.Liars); n > 0 && len(fp.Liars[n-1]) > 5 && fp.Liars[n-1][:5] == "info_" {
 			// is the chain-info liar the last peer asked?
@@ -366,6 +369,10 @@ func GenDaemon(prop string, seed uint64, tier string) *DaemonScenario {
 				p.Leave = nil
 				nm = members + joined
 				p.NewT = r.Range(nm/2+1, nm)
+			}
+			if p.Fail == "" && k == n-1 && len(p.Leave) == 0 && members >= 4 && p.NewT <= nm-1 && r.Bool(25) {
+				// one remaining member (never the first, which leads) accepts and is then down for the execution
+				p.DownInExec = r.Range(1, members-1) + 1
 			}
 			sc.Reshares = append(sc.Reshares, p)
 			if p.Fail == "" {
@@ -552,6 +559,8 @@ func genCrash(seed uint64, tier string) *DaemonScenario {
 	for k := 1; k < rounds; k += 2 {
 		sc.Script = append(sc.Script, Act{AtMs: g0 + int64(k)*1000 + 400, Kind: "rand", Node: sc.Crash.Node, A: 0})
 	}
+	// and one keeps a stream open on it: every round goes out the moment the node announces it
+	sc.Script = append(sc.Script, Act{AtMs: g0 + 300, Kind: "stream", Node: sc.Crash.Node, A: 1, B: int64(rounds + 6)})
 	sc.HealAtMs = g0 + int64(rounds)*1000
 	sc.Rounds = rounds + 8
 	return sc
